@@ -18,6 +18,9 @@ def run_shard(prop, tier, seed, shard, nshards):
     core.setup_repo_path()
     mod = importlib.import_module('vf.props.%s' % prop.lower())
     ctx = core.Ctx(prop, tier, seed, shard, nshards)
+    # the library draws from the global `random` / `numpy.random` generators: make every shard
+    # reproducible from (property, seed, shard); workloads re-seed per case where they replay
+    ctx.seed_case('shard-start', tier, shard, nshards)
     t0 = time.time()
     mod.run(ctx)
     res = ctx.result()
